@@ -87,8 +87,15 @@ Definition judge_expand (c : str * expect * outcome (net * list str) * list (N *
 (* suite native: (source text, expected network, rendered [value; network; prefixlen; netmask],
                   query of a backend without cidr_expression for the same item, the quoted values of
                   that query as extracted by the harness) *)
+(* convert_condition_field_eq_val_cidr without cidr_expression: the OR of the patterns; since the C01
+   repair it is wrapped by group_expression "(...)" whenever more than one pattern remains an OR
+   (the backend of impl/c18.py never renders in-lists) *)
 Definition expanded_query (pats : list str) : str :=
-  join [c_space; 111; 114; c_space] (map (fun p => [102; c_eq; c_dq] ++ p ++ [c_dq]) pats).
+  let q := join [c_space; 111; 114; c_space] (map (fun p => [102; c_eq; c_dq] ++ p ++ [c_dq]) pats) in
+  match pats with
+  | _ :: _ :: _ => [c_lpar] ++ q ++ [c_rpar]
+  | _ => q
+  end.
 
 Definition judge_native (c : str * net * outcome (list str) * outcome str * list str) : N :=
   let '(s, n, r, q, qp) := c in
